@@ -522,4 +522,402 @@ theorem runFrom_spec (e : Env) (he : EnvOk e) (cycle : Nat) (mt : Rat) (hmt : 0 
     · rw [h1] at hle; simp [V.le] at hle
     · exact hq r h1
 
+
+
+/-! ### figure of merit: the cursor -/
+
+/-- `s'` is `s` after writing `vals` at the cursor, everything else untouched -/
+structure Wrote (s s' : JSt) (vals : List Rat) : Prop where
+  index : s'.index = s.index + vals.length
+  len : s'.dest.length = s.dest.length
+  fits : s.index + vals.length ≤ s.dest.length
+  inside : ∀ k (h : k < vals.length), s'.dest[s.index + k]? = some (some vals[k])
+  outside : ∀ k, k < s.index ∨ s.index + vals.length ≤ k → s'.dest[k]? = s.dest[k]?
+
+theorem Wrote.refl (s : JSt) (h : s.index ≤ s.dest.length) : Wrote s s [] :=
+  ⟨by simp, rfl, by simpa using h, by simp, fun _ _ => rfl⟩
+
+theorem Wrote.trans {s s' s'' : JSt} {v1 v2 : List Rat} (h1 : Wrote s s' v1) (h2 : Wrote s' s'' v2) :
+    Wrote s s'' (v1 ++ v2) := by
+  refine ⟨by rw [h2.index, h1.index, List.length_append]; omega, by rw [h2.len, h1.len], ?_, ?_, ?_⟩
+  · have := h2.fits; rw [h1.index, h1.len] at this; rw [List.length_append]; omega
+  · intro k hk
+    by_cases hk1 : k < v1.length
+    · rw [h2.outside _ (Or.inl (by rw [h1.index]; omega)), h1.inside k hk1, List.getElem_append_left hk1]
+    · have hk2 : k - v1.length < v2.length := by rw [List.length_append] at hk; omega
+      have := h2.inside (k - v1.length) hk2
+      rw [h1.index] at this
+      rw [show s.index + k = s.index + v1.length + (k - v1.length) by omega, this,
+        List.getElem_append_right (by omega)]
+  · intro k hk
+    rw [List.length_append] at hk
+    rw [h2.outside k (by rw [h1.index]; omega), h1.outside k (by omega)]
+
+theorem push_spec (s : JSt) (x : Rat) (h : s.index < s.dest.length) :
+    ∃ s', s.push x = some s' ∧ Wrote s s' [x] := by
+  refine ⟨⟨s.dest.set s.index (some x), s.index + 1⟩, by simp [JSt.push, h], ?_⟩
+  refine ⟨rfl, by simp, by simp; omega, ?_, ?_⟩
+  · intro k hk
+    have : k = 0 := by simpa using hk
+    subst this
+    simp [h]
+  · intro k hk
+    simp only [List.length_cons, List.length_nil] at hk
+    rw [List.getElem?_set_ne (by omega)]
+
+theorem colLoop_spec (last : List Rat) (w : Rat) (cols : List Nat) (s : JSt)
+    (hc : ∀ c ∈ cols, c < last.length) (hs : s.index + cols.length ≤ s.dest.length) :
+    ∃ s', colLoop last w cols s = some s' ∧
+      Wrote s s' (cols.map (fun c => clampSq (last.getD c 0) w)) := by
+  induction cols generalizing s with
+  | nil => exact ⟨s, rfl, Wrote.refl s (by simpa using hs)⟩
+  | cons c cs ih =>
+    have hcl : c < last.length := hc c (by simp)
+    simp only [List.length_cons] at hs
+    obtain ⟨s1, h1, w1⟩ := push_spec s (clampSq (last.getD c 0) w) (by omega)
+    obtain ⟨s2, h2, w2⟩ := ih s1 (fun c' hc' => hc c' (by simp [hc']))
+      (by rw [w1.index, w1.len]; simp; omega)
+    refine ⟨s2, ?_, by simpa using w1.trans w2⟩
+    simp only [colLoop, List.getElem?_eq_getElem hcl, Option.bind_eq_bind, Option.bind_some]
+    have : last.getD c 0 = last[c] := by simp [List.getD_eq_getElem?_getD, List.getElem?_eq_getElem hcl]
+    rw [← this, h1]
+    simpa using h2
+
+
+/-- the values `__j_from_ode_compute` writes, in writing order -/
+def pairVals (ncols sd use : Nat) (gamma : Rat) : List Rat → List (List Rat) → Bool → List Rat
+  | _, [], _ => []
+  | last, next :: rest, add =>
+    (ctrlCols ncols sd).map (fun c => clampSq (last.getD c 0) ((next.getLastD 0 - last.getLastD 0) * gamma)) ++
+      (if add then (stateCols use).map (fun c => clampSq (last.getD c 0) (next.getLastD 0 - last.getLastD 0))
+        else []) ++
+      pairVals ncols sd use gamma next rest true
+
+theorem ctrlCols_lt {ncols sd c : Nat} (h : c ∈ ctrlCols ncols sd) : c < ncols := by
+  simp only [ctrlCols, List.mem_reverse, List.mem_map, List.mem_range] at h
+  obtain ⟨a, ha, rfl⟩ := h; omega
+
+theorem stateCols_lt {use c : Nat} (h : c ∈ stateCols use) : c < use := by
+  simpa [stateCols] using h
+
+theorem pairVals_length (ncols sd use : Nat) (gamma : Rat) (last : List Rat) (rest : List (List Rat))
+    (add : Bool) :
+    (pairVals ncols sd use gamma last rest add).length =
+      rest.length * (ncols - 1 - sd) + (if add then rest.length else rest.length - 1) * use := by
+  induction rest generalizing last add with
+  | nil => simp [pairVals]
+  | cons next rest ih =>
+    simp only [pairVals, List.length_append, List.length_map, ih, List.length_cons]
+    cases add <;> simp [ctrlCols, stateCols, Nat.add_mul] <;> omega
+
+theorem pairLoop_spec (ncols sd use : Nat) (gamma : Rat) (last : List Rat) (rest : List (List Rat))
+    (add : Bool) (s : JSt) (hn : 0 < ncols) (hu : use ≤ ncols) (hl : last.length = ncols)
+    (hr : ∀ r ∈ rest, r.length = ncols)
+    (hs : s.index + (pairVals ncols sd use gamma last rest add).length ≤ s.dest.length) :
+    ∃ s', pairLoop ncols sd use gamma last rest add s = some s' ∧
+      Wrote s s' (pairVals ncols sd use gamma last rest add) := by
+  induction rest generalizing last add s with
+  | nil => exact ⟨s, rfl, Wrote.refl s (by simpa [pairVals] using hs)⟩
+  | cons next rest ih =>
+    have hnl : next.length = ncols := hr next (by simp)
+    simp only [pairVals, List.length_append, List.length_map] at hs
+    have hlast : ∀ (l : List Rat), l.length = ncols → l.getLast? = some (l.getLastD 0) := by
+      intro l hl'
+      cases l with
+      | nil => simp at hl'; omega
+      | cons a t => simp [List.getLastD_eq_getLast?, List.getLast?_eq_some_getLast]
+    obtain ⟨s1, h1, w1⟩ := colLoop_spec last ((next.getLastD 0 - last.getLastD 0) * gamma)
+      (ctrlCols ncols sd) s (fun c hc => by rw [hl]; exact ctrlCols_lt hc) (by omega)
+    have hfit1 : s1.index + (if add then (stateCols use).map
+        (fun c => clampSq (last.getD c 0) (next.getLastD 0 - last.getLastD 0)) else []).length ≤ s1.dest.length := by
+      rw [w1.index, w1.len]; simp only [List.length_map]; omega
+    obtain ⟨s2, h2, w2⟩ : ∃ s2, (if add then colLoop last (next.getLastD 0 - last.getLastD 0) (stateCols use) s1
+          else some s1) = some s2 ∧
+        Wrote s1 s2 (if add then (stateCols use).map
+          (fun c => clampSq (last.getD c 0) (next.getLastD 0 - last.getLastD 0)) else []) := by
+      cases add with
+      | true =>
+        simp only [if_true] at hfit1 ⊢
+        exact colLoop_spec last _ (stateCols use) s1
+          (fun c hc => by have := stateCols_lt hc; omega) (by simpa using hfit1)
+      | false =>
+        simp only [Bool.false_eq_true, if_false] at hfit1 ⊢
+        exact ⟨s1, rfl, Wrote.refl s1 (by simpa using hfit1)⟩
+    obtain ⟨s3, h3, w3⟩ := ih next true s2 hnl (fun r hr' => hr r (by simp [hr']))
+      (by rw [w2.index, w2.len, w1.index, w1.len]; simp only [List.length_map]; omega)
+    refine ⟨s3, ?_, (w1.trans w2).trans w3⟩
+    simp only [pairLoop, hlast next hnl, hlast last hl, Option.bind_eq_bind, Option.bind_some, h1]
+    cases add with
+    | true => simp only [if_true] at h2 ⊢; rw [h2]; simpa using h3
+    | false =>
+      simp only [Bool.false_eq_true, if_false, Option.some.injEq] at h2 ⊢
+      rw [h2]; exact h3
+
+theorem mapM_id_map_some (l : List Rat) : (l.map some).mapM id = some l := by
+  induction l with
+  | nil => rfl
+  | cons a t ih => simp [List.mapM_cons, ih]
+
+/-- the whole destination is written, nothing else -/
+theorem wrote_all {dest : List (Option Rat)} {s' : JSt} {vals : List Rat}
+    (h : Wrote ⟨dest, 0⟩ s' vals) (hl : vals.length = dest.length) :
+    s'.index = dest.length ∧ s'.dest = vals.map some := by
+  refine ⟨by rw [h.index]; simp [hl], ?_⟩
+  apply List.ext_getElem?
+  intro k
+  by_cases hk : k < vals.length
+  · have := h.inside k hk
+    simp only [Nat.zero_add] at this
+    rw [this]; simp [hk]
+  · have h1 : s'.dest.length ≤ k := by rw [h.len]; simp only []; omega
+    rw [List.getElem?_eq_none h1, List.getElem?_eq_none (by simp; omega)]
+
+
+/-! ### figure of merit: the documented value -/
+
+theorem range_map_getD_eq_take (l : List Rat) (n : Nat) (h : n ≤ l.length) :
+    (List.range n).map (fun k => l.getD k 0) = l.take n := by
+  apply List.ext_getElem
+  · simp [h]
+  · intro i h1 h2
+    simp only [List.length_map, List.length_range] at h1
+    simp [List.getD_eq_getElem?_getD, List.getElem?_eq_getElem (show i < l.length by omega)]
+
+theorem ctrlCols_vals (last : List Rat) (ncols sd : Nat) (hl : last.length = ncols) :
+    (ctrlCols ncols sd).map (fun c => last.getD c 0) = (ctrlPart sd last).reverse := by
+  simp only [ctrlCols, List.map_reverse, List.map_map, ctrlPart]
+  congr 1
+  have h := range_map_getD_eq_take (last.drop sd) (ncols - 1 - sd) (by simp; omega)
+  rw [List.dropLast_eq_take, List.length_drop, hl, show ncols - sd - 1 = ncols - 1 - sd by omega, ← h]
+  apply List.map_congr_left
+  intro k _
+  simp [List.getD_eq_getElem?_getD, Nat.add_comm]
+
+theorem stateCols_vals (last : List Rat) (use : Nat) (hu : use ≤ last.length) :
+    (stateCols use).map (fun c => last.getD c 0) = (last.take use).reverse := by
+  simp only [stateCols, List.map_reverse]
+  rw [range_map_getD_eq_take last use hu]
+
+theorem sumSq_reverse (l : List Rat) : sumSq l.reverse = sumSq l := by
+  simp [sumSq, List.sum_reverse]
+
+theorem sum_clampSq (last : List Rat) (w : Rat) (cols : List Nat)
+    (h : ∀ c ∈ cols, -D100 < last.getD c 0 ∧ last.getD c 0 < D100) :
+    (cols.map (fun c => clampSq (last.getD c 0) w)).sum = w * sumSq (cols.map (fun c => last.getD c 0)) := by
+  induction cols with
+  | nil => simp [sumSq]
+  | cons c cs ih =>
+    have hc := h c (by simp)
+    have := ih (fun c' hc' => h c' (by simp [hc']))
+    have h1 : clampSq (last.getD c 0) w = (last.getD c 0 * last.getD c 0) * w := by
+      unfold clampSq; rw [if_pos hc]
+    rw [List.map_cons, List.sum_cons, this, h1]
+    simp only [sumSq, List.map_cons, List.sum_cons]
+    ring
+
+theorem getD_mem_or (l : List Rat) (c : Nat) (hc : c < l.length) : l.getD c 0 ∈ l := by
+  simp [List.getD_eq_getElem?_getD, List.getElem?_eq_getElem hc]
+
+/-- the documented contribution of the remaining time slices -/
+def pairDoc (sd use : Nat) (gamma : Rat) : List Rat → List (List Rat) → Bool → Rat
+  | _, [], _ => 0
+  | last, next :: rest, add =>
+    (next.getLastD 0 - last.getLastD 0) *
+        (gamma * sumSq (ctrlPart sd last) + if add then sumSq (last.take use) else 0) +
+      pairDoc sd use gamma next rest true
+
+theorem pairVals_sum (ncols sd use : Nat) (gamma : Rat) (last : List Rat) (rest : List (List Rat)) (add : Bool)
+    (hu : use ≤ ncols) (hl : last.length = ncols) (hr : ∀ r ∈ rest, r.length = ncols)
+    (hb : ∀ r ∈ last :: rest, ∀ v ∈ r, -D100 < v ∧ v < D100) :
+    (pairVals ncols sd use gamma last rest add).sum = pairDoc sd use gamma last rest add := by
+  induction rest generalizing last add with
+  | nil => simp [pairVals, pairDoc]
+  | cons next rest ih =>
+    have hnl : next.length = ncols := hr next (by simp)
+    have hbl : ∀ c, c < ncols → -D100 < last.getD c 0 ∧ last.getD c 0 < D100 :=
+      fun c hc => hb last (by simp) _ (getD_mem_or last c (by omega))
+    have ih' := ih next true hnl (fun r hr' => hr r (by simp [hr']))
+      (fun r hr' => hb r (by simp only [List.mem_cons] at hr' ⊢; tauto))
+    simp only [pairVals, pairDoc, List.sum_append, ih']
+    rw [sum_clampSq last _ _ (fun c hc => hbl c (ctrlCols_lt hc)), ctrlCols_vals last ncols sd hl, sumSq_reverse]
+    cases add with
+    | true =>
+      simp only [if_true]
+      rw [sum_clampSq last _ _ (fun c hc => hbl c (by have := stateCols_lt hc; omega)),
+        stateCols_vals last use (by omega), sumSq_reverse]
+      ring
+    | false => simp; ring
+
+/-- the summand of the documented formula for row `i` of `L`; the state counts from row 1 on
+(or from row 0 on when `add`) -/
+def docTerm (L : List (List Rat)) (sd use : Nat) (gamma : Rat) (add : Bool) (i : Nat) : Rat :=
+  (timeAt L (i + 1) - timeAt L i) *
+    (gamma * sumSq (ctrlPart sd (L.getD i [])) +
+      (if add = true ∨ 1 ≤ i then sumSq ((L.getD i []).take use) else 0))
+
+theorem pairDoc_eq_range (sd use : Nat) (gamma : Rat) (last : List Rat) (rest : List (List Rat)) (add : Bool) :
+    pairDoc sd use gamma last rest add =
+      ((List.range rest.length).map (docTerm (last :: rest) sd use gamma add)).sum := by
+  induction rest generalizing last add with
+  | nil => simp [pairDoc]
+  | cons next rest ih =>
+    rw [pairDoc, ih next true, List.length_cons, List.range_succ_eq_map, List.map_cons, List.sum_cons,
+      List.map_map]
+    congr 1
+    · simp [docTerm, timeAt]
+    · congr 1
+      apply List.map_congr_left
+      intro i _
+      simp [docTerm, timeAt]
+
+
+
+/-- a well-formed simulation matrix for the figure of merit: at least one row, all rows of the same
+width `ncols`, which has room for the state, at least the time column, and `use ≤ sd` state columns -/
+structure OdeWF (ode : List (List Rat)) (ncols sd use : Nat) : Prop where
+  rows : ∀ r ∈ ode, r.length = ncols
+  nonempty : ode ≠ []
+  wide : sd + 1 ≤ ncols
+  use_le : use ≤ sd
+
+theorem destSize_eq (m' nc use : Nat) :
+    m' * nc + (m' - 1) * use = m' * (nc + use) - use := by
+  cases m' with
+  | zero => simp
+  | succ a => simp [Nat.add_mul, Nat.mul_add]; omega
+
+theorem jCompute_spec (ode : List (List Rat)) (ncols sd use : Nat) (gamma : Rat) (dest : List (Option Rat))
+    (hw : OdeWF ode ncols sd use)
+    (hd : dest.length = (ode.length - 1) * (ncols - 1 - sd + use) - use) :
+    ∃ s', jCompute ode sd use gamma dest = some s' ∧ s'.index = dest.length ∧
+      s'.dest = (pairVals ncols sd use gamma (ode.headD []) ode.tail false).map some := by
+  obtain ⟨h1, h2, h3, h4⟩ := hw
+  cases ode with
+  | nil => exact absurd rfl h2
+  | cons r0 rest =>
+    have hr0 : r0.length = ncols := h1 r0 (by simp)
+    have hlen : (pairVals ncols sd use gamma r0 rest false).length = dest.length := by
+      rw [pairVals_length, hd]
+      simp only [Bool.false_eq_true, if_false, List.length_cons, Nat.add_sub_cancel]
+      exact destSize_eq _ _ _
+    obtain ⟨s', hs, hw'⟩ := pairLoop_spec ncols sd use gamma r0 rest false ⟨dest, 0⟩ (by omega) (by omega) hr0
+      (fun r hr => h1 r (by simp [hr])) (by simp [hlen])
+    obtain ⟨hi, hdst⟩ := wrote_all hw' hlen
+    exact ⟨s', by simp [jCompute, hr0, hs], hi, by simpa using hdst⟩
+
+theorem clampSq_nonneg (v w : Rat) (hw : 0 ≤ w) : 0 ≤ clampSq v w := by
+  unfold clampSq
+  split
+  · exact mul_nonneg (mul_self_nonneg v) hw
+  · unfold D100; positivity
+
+theorem pairVals_nonneg (ncols sd use : Nat) (gamma : Rat) (hg : 0 ≤ gamma) (last : List Rat)
+    (rest : List (List Rat)) (add : Bool)
+    (hinc : ((last :: rest).map (fun r => r.getLastD 0)).Pairwise (· ≤ ·)) :
+    ∀ x ∈ pairVals ncols sd use gamma last rest add, 0 ≤ x := by
+  induction rest generalizing last add with
+  | nil => simp [pairVals]
+  | cons next rest ih =>
+    simp only [List.map_cons, List.pairwise_cons] at hinc
+    have hw : 0 ≤ next.getLastD 0 - last.getLastD 0 := by
+      have := hinc.1 (next.getLastD 0) (by simp); linarith
+    intro x hx
+    simp only [pairVals, List.mem_append] at hx
+    rcases hx with (hx | hx) | hx
+    · obtain ⟨c, _, rfl⟩ := List.mem_map.mp hx
+      exact clampSq_nonneg _ _ (by positivity)
+    · cases add with
+      | true =>
+        simp only [if_true] at hx
+        obtain ⟨c, _, rfl⟩ := List.mem_map.mp hx
+        exact clampSq_nonneg _ _ hw
+      | false => simp at hx
+    · exact ih next true (by simpa using hinc.2) x hx
+
+theorem timeAt_last (ode : List (List Rat)) (h : ode ≠ []) :
+    tFromOde ode = some (timeAt ode (ode.length - 1)) ∨ (ode.getLast h) = [] := by
+  by_cases he : ode.getLast h = []
+  · exact Or.inr he
+  · left
+    simp only [tFromOde, timeAt, List.getLast?_eq_some_getLast h, Option.bind_some]
+    have : ode.getD (ode.length - 1) [] = ode.getLast h := by
+      rw [List.getLast_eq_getElem]
+      have hl : ode.length - 1 < ode.length := by have := List.length_pos_of_ne_nil h; omega
+      simp [List.getD_eq_getElem?_getD, List.getElem?_eq_getElem hl]
+    rw [this, List.getLastD_eq_getLast?, List.getLast?_eq_some_getLast he]
+    rfl
+
+/-- `j_from_ode` on a well-formed matrix with at least two rows -/
+theorem jFromOde_eq (ode : List (List Rat)) (ncols sd : Nat) (useArg : Int) (gamma : Rat)
+    (hw : OdeWF ode ncols sd (if useArg ≤ 0 then sd else useArg.toNat)) (hm : 2 ≤ ode.length) :
+    jFromOde ode sd useArg gamma =
+      if timeAt ode (ode.length - 1) = 0 then .div0 else
+      .val ((pairVals ncols sd (if useArg ≤ 0 then sd else useArg.toNat) gamma (ode.headD []) ode.tail false).sum
+        / timeAt ode (ode.length - 1)) := by
+  generalize huse : (if useArg ≤ 0 then sd else useArg.toNat) = use at hw
+  have hnc : (ode.headD []).length = ncols := by
+    cases ode with
+    | nil => simp at hm
+    | cons r0 rest => exact hw.rows r0 (by simp)
+  have hsz : (((ode.length : Int) - 1) * ((ncols : Int) - 1 - sd + use) - use) =
+      (((ode.length - 1) * (ncols - 1 - sd + use) - use : Nat) : Int) := by
+    obtain ⟨a, ha⟩ : ∃ a, ode.length = a + 2 := ⟨ode.length - 2, by omega⟩
+    obtain ⟨nc, hnc'⟩ : ∃ nc, ncols = sd + 1 + nc := ⟨ncols - sd - 1, by have := hw.wide; omega⟩
+    rw [ha, hnc']
+    have e1 : a + 2 - 1 = a + 1 := by omega
+    have e2 : sd + 1 + nc - 1 - sd = nc := by omega
+    rw [e1, e2, Nat.add_mul, Nat.one_mul, Nat.add_sub_assoc (by omega)]
+    push_cast
+    rw [Nat.cast_sub (by omega)]
+    push_cast
+    ring
+  obtain ⟨s', hs, _, hdst⟩ := jCompute_spec ode ncols sd use gamma
+    (List.replicate ((ode.length - 1) * (ncols - 1 - sd + use) - use) none) hw (by simp)
+  have hT : tFromOde ode = some (timeAt ode (ode.length - 1)) := by
+    have hne : ode ≠ [] := hw.nonempty
+    rcases timeAt_last ode hne with h | h
+    · exact h
+    · have := hw.rows _ (List.getLast_mem hne)
+      rw [h] at this; simp at this; have := hw.wide; omega
+  unfold jFromOde
+  rw [if_neg (by omega)]
+  simp only [huse, hnc, hsz]
+  rw [if_neg (by omega), Int.toNat_natCast, hs]
+  simp only [hdst, destSum, mapM_id_map_some, Option.map_some, hT]
+
+
+theorem timeAt_eq (L : List (List Rat)) (i : Nat) (h : i < L.length) : timeAt L i = (L[i]).getLastD 0 := by
+  simp [timeAt, List.getD_eq_getElem?_getD, List.getElem?_eq_getElem h]
+
+theorem docJ_eq_pairDoc (r0 : List Rat) (rest : List (List Rat)) (sd use : Nat) (gamma : Rat) :
+    docJ (r0 :: rest) sd use gamma =
+      pairDoc sd use gamma r0 rest false / timeAt (r0 :: rest) ((r0 :: rest).length - 1) := by
+  rw [pairDoc_eq_range, docJ]
+  congr 2
+  simp only [List.length_cons, Nat.add_sub_cancel]
+  apply List.map_congr_left
+  intro i _
+  simp [docTerm]
+
+theorem runFrom_trace_head (e : Env) (cycle : Nat) (mt : Rat) :
+    ((runFrom e cycle mt).trace.head?).map (·.maxTime) = some mt := by
+  fun_induction runFrom e cycle mt <;> simp_all <;> rfl
+
+theorem failRow_isFailure (e : Env) : IsFailureRow e.start e.cdim (failRow e) := by
+  have h1 := stateOf_row e.start (List.replicate e.cdim (V.fin D100)) (V.fin 0)
+  have h2 := controlOf_row e.start (List.replicate e.cdim (V.fin D100)) (V.fin 0)
+  rw [List.length_replicate] at h2
+  refine ⟨by simp [failRow]; omega, h1, ?_, timeOf_row _ _ _⟩
+  intro v hv
+  simp only [failRow] at hv
+  rw [h2] at hv
+  exact (List.mem_replicate.mp hv).2
+
+theorem GoodRows.mono {start : List V} {cdim steps : Nat} {ctrl : List V → V → List V} {a b : Rat}
+    {rs : List (List V)} (h : GoodRows start cdim steps ctrl a rs) (hab : a ≤ b) :
+    GoodRows start cdim steps ctrl b rs :=
+  ⟨h.count, h.width, h.first, h.time0, h.increasing,
+    fun r hr => by obtain ⟨x, h1, h2⟩ := h.limited r hr; exact ⟨x, h1, le_trans h2 hab⟩,
+    h.bounded, h.control⟩
+
 end Ode
